@@ -176,6 +176,30 @@ Theorem C01_kernel_metadata : forall p m, k_meta p m = m.
 Proof. exact k_meta_id. Qed.
 Print Assumptions C01_kernel_metadata.
 
+(** SESSIONS — two consecutive mate() calls on one protocol object (whatever was replaced in between: matrix, probabilities, cross
+    table, counts, selfing depth, draws): the counters run on exactly, and every family label of the second call lies above every
+    family label of the first (the result of a call depends on the state at that call — [mate] is a function of it — and never
+    reuses names or labels of an earlier call) *)
+Theorem C01_session_counters : forall p g1 xo1 m1 xc1 nm1 np1 ns1 pc fc d1 x1 g2 xo2 m2 xc2 nm2 np2 ns2 d2 x2,
+  mate p g1 xo1 m1 xc1 nm1 np1 ns1 pc fc d1 = Some x1 -> nonneg_draws d1 ->
+  mate p g2 xo2 m2 xc2 nm2 np2 ns2 (p_pc x1) (p_fc x1) d2 = Some x2 -> nonneg_draws d2 ->
+  p_pc x2 = pc + Z.of_nat (length (p_taxa x1)) + Z.of_nat (length (p_taxa x2)) /\
+  p_fc x2 = fc + Z.of_nat (length xc1) + Z.of_nat (length xc2) /\
+  (forall j1 j2, (j1 < length (p_taxa x1))%nat -> (j2 < length (p_taxa x2))%nat -> nth j1 (p_grp x1) 0 < nth j2 (p_grp x2) 0).
+Proof. exact session_counters. Qed.
+Print Assumptions C01_session_counters.
+
+Example C01_session_hyps_satisfiable : nonneg_draws ex_draws /\ exists x1 x2,
+  mate P3DH ex_geno ex_xoprob meta_none [[2; 0; 1]%nat] (inl 2%nat) (inl 2%nat) 1%nat 5 3 ex_draws = Some x1 /\
+  mate P3DH ex_geno ex_xoprob meta_none [[2; 0; 1]%nat] (inl 2%nat) (inl 2%nat) 1%nat (p_pc x1) (p_fc x1) ex_draws = Some x2 /\
+  p_pc x2 = 13 /\ p_fc x2 = 5.
+Proof. split; [exact ex_nonneg | exact ex_session]. Qed.
+
+(** the regenerated mate() runs on the example below as well *)
+Example C01_kernel_hyps_satisfiable : nonneg_draws ex_draws /\
+  exists x, mate_k P3DH ex_geno ex_xoprob meta_none [[2; 0; 1]%nat] (inl 2%nat) (inl 2%nat) 1%nat 5 3 ex_draws = Some x /\ length (p_taxa x) = 4%nat.
+Proof. split; [exact ex_nonneg | exact ex_kernel_runs]. Qed.
+
 (** non-vacuity: a 3-taxa, 5-marker population (alleles incl. -128/127, xoprob incl. exact 0 and 1/2), a three-way DH cross with
     two matings, two progeny each and one selfing generation: the hypotheses hold, four progeny are produced from seven
     uniform matrices, and crossovers fire *)
